@@ -919,7 +919,22 @@ func (d *Decoder) attachAnnotations(v reflect.Value) error {
 			if err != nil {
 				return err
 			}
-			subValue.Set(reflect.ValueOf(annotations))
+			switch {
+			case subValue.Type() == reflect.TypeOf(annotations):
+				subValue.Set(reflect.ValueOf(annotations))
+			case subValue.Kind() == reflect.Slice && subValue.Type().Elem().Kind() == reflect.String:
+				// The documented form: annotations as their texts.
+				texts := reflect.MakeSlice(subValue.Type(), 0, len(annotations))
+				for _, a := range annotations {
+					if a.Text == nil {
+						return fmt.Errorf("ion: cannot decode an annotation with unknown text to %v", subValue.Type().String())
+					}
+					texts = reflect.Append(texts, reflect.ValueOf(*a.Text).Convert(subValue.Type().Elem()))
+				}
+				subValue.Set(texts)
+			default:
+				return fmt.Errorf("ion: cannot decode annotations to %v", subValue.Type().String())
+			}
 			break
 		}
 	}
